@@ -29,6 +29,7 @@ def handbuilt():
     m.imports.append(('env', 'g', 3, (I32, 0)))
     m.mems.append((1, 3)); m.tables.append((8, 8))
     m.globals.append((I64, 1, i64_const(-5))); m.globals.append((F32, 0, f32_const(0x7fc00000)))
+    m.globals.append((F64, 1, f64_const(0x400921fb54442d18))); m.globals.append((I32, 0, i32_const(-7))); m.globals.append((F64, 0, f64_const(0xfff0000000000001)))
     f1 = m.add_func('ii', 'i', [(2, I32), (1, I64)], block('i') + local_get(0) + local_get(1) + br_table([0, 0, 0], 0) + END + i32_const(-123456) + op(0x6a) + i64_const(-(1 << 40)) + local_set(4) + local_get(0) + memop(0x28, 2, 16) + op(0x6a), export='f')
     f2 = m.add_func('', '', (), i32_const(0) + i32_const(1) + memop(0x36, 2, 65535) + i32_const(4) + i32_const(0) + i32_const(3) + memory_init(1) + data_drop(1), export='g')
     m.add_func('i', 'i', (), local_get(0) + call(0) + if_('i') + i32_const(1) + ELSE + i32_const(2) + END + i32_const(2) + call_indirect(m.type('i', 'i')), export='h')
@@ -40,6 +41,7 @@ def handbuilt():
     m = Module()
     m.add_func('', 'I', (), i64_const(0x7fffffffffffffff) + i64_const(-1) + op(0x7c), export='a')
     m.add_func('f', 'f', [(1, F64)], local_get(0) + op(0x8c), export='b')
+    m.add_func('', 'F', (), f64_const(0x3ff0000000000001) + f32_const(0x3fc00000) + op(0xbb) + op(0xa0), export='c')
     mods.append(('hand-small', m.encode()))
     m = Module()
     m.mems.append((1, None))
